@@ -1,1 +1,337 @@
-import GeomV.C01.Model
+import GeomV.C01.Lemmas
+/-!
+# C01 theorems (property: polygon boolean operations implement point-set semantics)
+
+`core` — the sweep-line part of polyclip-go — is a parameter; `CoreSpec core.bool` is an explicit
+hypothesis (checked per generated case by `sampleCheck` in the correspondence run).  Everything else
+(conversion of operands, operation selection incl. `clipperOp`, both trivial-case tables, re-closing
+of rings, all `*Bounds` shortcuts) is proved, for all inputs.  Level: proof, **partial**.
+-/
+set_option linter.unusedSimpArgs false
+set_option linter.unusedVariables false
+namespace GeomV.C01
+open GeomV
+
+theorem member_eq_inside (A : Operand) (p : P) (hv : Valid A = true) (ho : offBoundary A p = true) :
+    member A p = inside A.rings p := by
+  cases A with
+  | poly rs => rfl
+  | multi ps => simp [member, Operand.rings, inside_flatten]
+  | box mn mx =>
+    simp only [Valid, Bool.and_eq_true, decide_eq_true_eq] at hv
+    simp only [offBoundary, Operand.rings, Bool.not_eq_true'] at ho
+    simp only [member, Operand.rings, inside_cons, inside_nil, Bool.xor_false]
+    exact (insideRing_rect mn mx p hv.1.1 hv.1.2 ho).symm
+
+/-- membership of an operand without vertices -/
+theorem member_of_rings_nil (A : Operand) (p : P) (h : A.rings = []) : member A p = false := by
+  cases A with
+  | poly rs => simp [Operand.rings] at h; subst h; rfl
+  | multi ps =>
+    have : inside ps.flatten p = false := by simp [Operand.rings] at h; rw [List.flatten_eq_nil_iff.2 h]; rfl
+    simpa [member, inside_flatten] using this
+  | box mn mx => simp [Operand.rings] at h
+
+theorem opBool_union_eq_xor (a b : Bool) (h : ¬ (a = true ∧ b = true)) : opBool .union a b = opBool .xor a b := by
+  cases a <;> cases b <;> simp_all [opBool]
+
+/-- the clipper call made by `Polygon.op` / `MultiPolygon.op`: tables and sweep -/
+theorem construct_pointset (core : ClipCore) (hcore : CoreSpec core.bool) (op : Op) (s c : Contours) (p : P)
+    (vs : validC s = true) (vc : validC c = true) (gp : gpC s c = true)
+    (os : onBoundary s p = false) (oc : onBoundary c p = false) :
+    inside (construct core (clipperOp (.bool op) s c) s c) p = opBool op (inside s p) (inside c p) := by
+  by_cases hs : s = []
+  · subst hs
+    cases op <;> simp [construct, clipperOp, opBool, inside_nil]
+  by_cases hc : c = []
+  · subst hc
+    have : s.isEmpty = false := by cases s <;> simp_all
+    cases op <;> simp [construct, clipperOp, opBool, inside_nil, this]
+  have es : s.isEmpty = false := by cases s <;> simp_all
+  have ec : c.isEmpty = false := by cases c <;> simp_all
+  by_cases hov : overlaps (bbox s) (bbox c) = true
+  · -- the sweep
+    have := hcore op s c hs hc hov vs vc gp p os oc
+    cases op <;> simpa [construct, clipperOp, es, ec, hov] using this
+  · have hov' : overlaps (bbox s) (bbox c) = false := by simpa using hov
+    have nb := not_both_inside s c p hov'
+    cases op
+    · -- intersection: empty
+      simp only [construct, clipperOp, es, ec, hov', opBool]
+      simp [inside_nil]
+      intro h; by_contra h2; exact nb ⟨h, by simpa using h2⟩
+    · simp [construct, clipperOp, es, ec, hov', opBool, inside_append]
+      cases h1 : inside s p <;> cases h2 : inside c p <;> simp_all
+    · simp [construct, clipperOp, es, ec, hov', opBool]
+      cases h1 : inside s p <;> cases h2 : inside c p <;> simp_all
+    · simp [construct, clipperOp, es, ec, hov', opBool, inside_append]
+
+theorem polyOp_pointset (core : ClipCore) (hcore : CoreSpec core.bool) (op : Op) (s : Contours) (arg : Operand) (p : P)
+    (vs : validC s = true) (vc : validC arg.rings = true) (gp : gpC s arg.rings = true)
+    (os : onBoundary s p = false) (oc : onBoundary arg.rings p = false) :
+    inside (polyOp core (.bool op) s arg) p = opBool op (inside s p) (inside arg.rings p) := by
+  simp only [polyOp, inside_polyClipToPolygon, toContours_eq_rings]
+  exact construct_pointset core hcore op s arg.rings p vs vc gp os oc
+
+theorem validC_of_Valid (A : Operand) (h : Valid A = true) : validC A.rings = true := by
+  cases A <;> simp_all [Valid, Operand.rings]
+
+theorem strict_of_closed_off (mn mx p : P) (h : inBoxC mn mx p) (hb : onBoundary [rect mn mx] p = false) :
+    strictInBox mn mx p = true := by
+  obtain ⟨b1, b2, b3, b4⟩ := offRect mn mx p hb
+  obtain ⟨h1, h2, h3, h4⟩ := h
+  have x1 : mn.x < p.x := lt_of_le_of_ne h1 (fun e => b4 ⟨e.symm, h3, h4⟩)
+  have x2 : p.x < mx.x := lt_of_le_of_ne h2 (fun e => b2 ⟨e, h3, h4⟩)
+  have y1 : mn.y < p.y := lt_of_le_of_ne h3 (fun e => b1 ⟨e.symm, h1, h2⟩)
+  have y2 : p.y < mx.y := lt_of_le_of_ne h4 (fun e => b3 ⟨e, h1, h2⟩)
+  simp [strictInBox, x1, x2, y1, y2]
+
+theorem inBoxC_of_strict (mn mx p : P) (h : strictInBox mn mx p = true) : inBoxC mn mx p := by
+  simp only [strictInBox, Bool.and_eq_true, decide_eq_true_eq] at h
+  exact ⟨h.1.1.1.le, h.1.1.2.le, h.1.2.le, h.2.le⟩
+
+theorem boundsIntersection_nonbox (core : ClipCore) (bmn bmx : P) (arg : Operand) (h : ∀ a b, arg ≠ .box a b) :
+    boundsIntersection core bmn bmx arg =
+      (match boundsOf arg with
+       | none => some arg
+       | some bp =>
+         if boxWithin bp (bmn, bmx) then some arg
+         else if !boxOverlaps (bmn, bmx) bp then none
+         else some (.poly (polyOp core (.bool .inter) [rect bmn bmx] arg))) := by
+  cases arg with
+  | poly rs => rfl
+  | multi ps => rfl
+  | box a b => exact absurd rfl (h a b)
+
+theorem boundsOf_nonbox (arg : Operand) (h : ∀ a b, arg ≠ .box a b) : boundsOf arg = bbox arg.rings := by
+  cases arg with
+  | poly rs => rfl
+  | multi ps => rfl
+  | box a b => exact absurd rfl (h a b)
+
+/-- `(*Bounds).Intersection`: all shortcuts and the delegation -/
+theorem boundsIntersection_pointset (core : ClipCore) (hcore : CoreSpec core.bool) (mn mx : P) (arg : Operand) (p : P)
+    (hvb : Valid (.box mn mx) = true) (hva : Valid arg = true)
+    (hgp : GeneralPosition (.box mn mx) arg = true)
+    (hob : offBoundary (.box mn mx) p = true) (hoa : offBoundary arg p = true) :
+    memberRes (boundsIntersection core mn mx arg) p = (strictInBox mn mx p && member arg p) := by
+  have hb' : onBoundary [rect mn mx] p = false := by simpa [offBoundary, Operand.rings] using hob
+  have hvb' := hvb
+  simp only [Valid, Bool.and_eq_true, decide_eq_true_eq] at hvb'
+  by_cases hbox : ∃ a b, arg = .box a b
+  · -- box–box
+    obtain ⟨a, b, rfl⟩ := hbox
+    simp only [boundsIntersection]
+    split
+    · -- nil
+      rename_i hcond
+      simp only [memberRes, member]
+      symm
+      rw [Bool.and_eq_false_iff]
+      by_contra hc
+      simp only [not_or, Bool.not_eq_false] at hc
+      obtain ⟨s1, s2⟩ := hc
+      simp only [strictInBox, Bool.and_eq_true, decide_eq_true_eq] at s1 s2
+      rcases hcond with hcond | hcond
+      · have : max mn.x a.x < min mx.x b.x := lt_of_lt_of_le (max_lt s1.1.1.1 s2.1.1.1) (le_of_lt (lt_min s1.1.1.2 s2.1.1.2) |> fun h => le_of_lt (lt_min s1.1.1.2 s2.1.1.2)) |> fun _ => lt_trans (max_lt s1.1.1.1 s2.1.1.1) (lt_min s1.1.1.2 s2.1.1.2)
+        exact absurd this (not_lt.2 hcond)
+      · have : max mn.y a.y < min mx.y b.y := lt_trans (max_lt s1.1.2 s2.1.2) (lt_min s1.2 s2.2)
+        exact absurd this (not_lt.2 hcond)
+    · simp only [memberRes, member, strictInBox]
+      rw [Bool.eq_iff_iff]
+      simp only [Bool.and_eq_true, decide_eq_true_eq, max_lt_iff, lt_min_iff]
+      constructor
+      · rintro ⟨⟨⟨⟨h1, h2⟩, h3, h4⟩, h5, h6⟩, h7, h8⟩
+        exact ⟨⟨⟨⟨h1, h3⟩, h5⟩, h7⟩, ⟨⟨h2, h4⟩, h6⟩, h8⟩
+      · rintro ⟨⟨⟨⟨h1, h3⟩, h5⟩, h7⟩, ⟨⟨h2, h4⟩, h6⟩, h8⟩
+        exact ⟨⟨⟨⟨h1, h2⟩, h3, h4⟩, h5, h6⟩, h7, h8⟩
+  · have hnb : ∀ a b, arg ≠ .box a b := fun a b e => hbox ⟨a, b, e⟩
+    have hm : member arg p = inside arg.rings p := member_eq_inside arg p hva hoa
+    have hoa' : onBoundary arg.rings p = false := by simpa [offBoundary] using hoa
+    rw [boundsIntersection_nonbox core mn mx arg hnb, boundsOf_nonbox arg hnb]
+    cases hbb : bbox arg.rings with
+    | none =>
+      simp only [memberRes]
+      rw [hm, inside_of_bbox_none _ _ hbb]; simp
+    | some bp =>
+      obtain ⟨pmn, pmx⟩ := bp
+      simp only
+      split
+      · -- argument's box within the receiver: the argument is returned
+        rename_i hw
+        simp only [boxWithin, Bool.and_eq_true, decide_eq_true_eq, ge_iff_le] at hw
+        simp only [memberRes]
+        cases hin : member arg p with
+        | false => simp
+        | true =>
+          rw [hm] at hin
+          obtain ⟨mn', mx', e, i1, i2, i3, i4⟩ := inBox_of_inside _ _ hin
+          rw [hbb] at e; cases e
+          have : inBoxC mn mx p := ⟨le_trans hw.1.1.1 i1, le_trans i2 hw.1.2, le_trans hw.1.1.2 i3, le_trans i4 hw.2⟩
+          simp [strict_of_closed_off mn mx p this hb']
+      · split
+        · -- boxes do not overlap: nil
+          rename_i _ hno
+          simp only [memberRes]
+          symm; rw [Bool.and_eq_false_iff]
+          by_contra hc
+          simp only [not_or, Bool.not_eq_false] at hc
+          obtain ⟨s1, s2⟩ := hc
+          rw [hm] at s2
+          obtain ⟨mn', mx', e, i1, i2, i3, i4⟩ := inBox_of_inside _ _ s2
+          rw [hbb] at e; cases e
+          obtain ⟨j1, j2, j3, j4⟩ := inBoxC_of_strict _ _ _ s1
+          simp only [boxOverlaps, Bool.not_eq_true', Bool.and_eq_false_iff, decide_eq_false_iff_not, not_le, ge_iff_le] at hno
+          rcases hno with ((h | h) | h) | h <;> linarith
+        · -- delegation to Polygon.Intersection
+          show inside (polyOp core (.bool .inter) [rect mn mx] arg) p = _
+          have := polyOp_pointset core hcore .inter [rect mn mx] arg p hvb'.2
+            (validC_of_Valid arg hva) (by simpa [GeneralPosition, Operand.rings] using hgp) hb' hoa'
+          rw [this, hm]
+          simp only [opBool, inside_cons, inside_nil, Bool.xor_false]
+          rw [insideRing_rect mn mx p hvb'.1.1 hvb'.1.2 hb']
+
+/-- **C01, clause 1 (point-set semantics).** For every receiver/argument combination in
+`{Polygon, MultiPolygon, *Bounds}²` and every operation, for valid operands in general position and
+every point off both boundaries: the point lies in `recv.Op(arg)` exactly when the truth table of the
+operation says so.  Covers the glue, `clipperOp`, both trivial-case tables of the clipper and all
+`*Bounds` shortcuts, for all inputs; conditional on `CoreSpec` for the sweep. -/
+theorem C01_pointset (core : ClipCore) (hcore : CoreSpec core.bool) (recv arg : Operand) (op : Op) (p : P)
+    (hvr : Valid recv = true) (hva : Valid arg = true) (hgp : GeneralPosition recv arg = true)
+    (hor : offBoundary recv p = true) (hoa : offBoundary arg p = true) :
+    memberRes (api core recv arg op) p = opBool op (member recv p) (member arg p) := by
+  have hmr := member_eq_inside recv p hvr hor
+  have hma := member_eq_inside arg p hva hoa
+  have hor' : onBoundary recv.rings p = false := by simpa [offBoundary] using hor
+  have hoa' : onBoundary arg.rings p = false := by simpa [offBoundary] using hoa
+  have key : ∀ s, s = recv.rings →
+      inside (polyOp core (.bool op) s arg) p = opBool op (member recv p) (member arg p) := by
+    intro s hs
+    rw [hmr, hma, ← hs]
+    exact polyOp_pointset core hcore op s arg p (hs ▸ validC_of_Valid recv hvr) (validC_of_Valid arg hva)
+      (by simpa [GeneralPosition, hs] using hgp) (hs ▸ hor') hoa'
+  cases recv with
+  | poly rs => exact key rs rfl
+  | multi ps => exact key _ (toContours_eq_rings _)
+  | box mn mx =>
+    cases op with
+    | inter =>
+      simp only [api]
+      rw [boundsIntersection_pointset core hcore mn mx arg p hvr hva hgp hor hoa]
+      rfl
+    | union => exact key _ rfl
+    | diff => exact key _ rfl
+    | xor => exact key _ rfl
+
+/-! ## clause 2: closed rings -/
+
+theorem closeRing_closed (r : Ring) : closeRing r ≠ [] ∧ (closeRing r).head? = (closeRing r).getLast? := by
+  cases r with
+  | nil => simp [closeRing]
+  | cons h t =>
+    refine ⟨by simp [closeRing], ?_⟩
+    show some h = ((h :: t) ++ [h]).getLast?
+    rw [List.getLast?_concat]
+
+/-- the result of a `Polygon` / `MultiPolygon` receiver -/
+def polyResult (core : ClipCore) (recv arg : Operand) (op : Op) : List Ring :=
+  polyOp core (.bool op) (toContours recv) arg
+
+/-- **C01, clause 2 (closed rings).** Whatever the sweep returns, every ring of a result computed
+from a `Polygon` or `MultiPolygon` receiver is non-empty with first vertex = last vertex, and the
+result is a `Polygon` (never `nil`). -/
+theorem C01_closed (core : ClipCore) (recv arg : Operand) (op : Op) (hr : ∀ a b, recv ≠ .box a b) :
+    api core recv arg op = some (.poly (polyResult core recv arg op)) ∧
+    ∀ r ∈ polyResult core recv arg op, r ≠ [] ∧ r.head? = r.getLast? := by
+  constructor
+  · cases recv with
+    | poly rs => simp [api, polyResult, toContours_eq_rings, Operand.rings]
+    | multi ps => rfl
+    | box a b => exact absurd rfl (hr a b)
+  · intro r hr'
+    simp only [polyResult, polyOp, polyClipToPolygon, List.mem_map] at hr'
+    obtain ⟨r0, _, rfl⟩ := hr'
+    exact closeRing_closed r0
+
+/-! ## clause 3: an empty result only when the true result is empty -/
+
+/-- the result has no ring (Go: `nil`, or a polygon / multi-polygon with zero rings) -/
+def resultEmpty : Option Operand → Bool
+  | none => true
+  | some o => o.rings.isEmpty
+
+/-- **C01, clause 3.** Under the hypotheses of `C01_pointset`: if the result is `nil` or has zero
+rings, then no point off the boundaries lies in the true result (it has no area). -/
+theorem C01_empty_only_if_null (core : ClipCore) (hcore : CoreSpec core.bool) (recv arg : Operand) (op : Op)
+    (hvr : Valid recv = true) (hva : Valid arg = true) (hgp : GeneralPosition recv arg = true)
+    (he : resultEmpty (api core recv arg op) = true) (p : P)
+    (hor : offBoundary recv p = true) (hoa : offBoundary arg p = true) :
+    opBool op (member recv p) (member arg p) = false := by
+  rw [← C01_pointset core hcore recv arg op p hvr hva hgp hor hoa]
+  cases h : api core recv arg op with
+  | none => rfl
+  | some o =>
+    rw [h] at he
+    simp only [resultEmpty, List.isEmpty_iff] at he
+    exact member_of_rings_nil o p he
+
+/-! ## the defect repaired by /repo commit 5100704, on the model of the pre-fix glue -/
+
+def unitC : Contours := [[⟨0, 0⟩, ⟨1, 0⟩, ⟨1, 1⟩, ⟨0, 1⟩, ⟨0, 0⟩]]
+def farC : Contours := [[⟨5, 5⟩, ⟨6, 5⟩, ⟨6, 6⟩, ⟨5, 6⟩, ⟨5, 5⟩]]
+def unitSq : Operand := .poly unitC
+def farSq : Operand := .poly farC
+theorem trivial_witness : trivialCase unitC farC = true := by decide +kernel
+
+theorem construct_of_trivial (core : ClipCore) (op : COp) (s c : Contours) (h : trivialCase s c = true) :
+    construct core op s c =
+      (if s.isEmpty || c.isEmpty then
+        (match op with | .bool .diff => s | .bool .union => if s.isEmpty then c else s | _ => [])
+       else (match op with | .bool .diff => s | .bool .union => s ++ c | _ => [])) := by
+  unfold construct
+  by_cases h1 : (s.isEmpty || c.isEmpty) = true
+  · cases op with
+    | clipline => simp [h1]
+    | bool o => cases o <;> simp [h1]
+  · have h2 : (!overlaps (bbox s) (bbox c)) = true := by
+      simp only [trivialCase, Bool.or_eq_true] at h
+      rcases h with h | h
+      · exact absurd h (by simpa using h1)
+      · exact h
+    cases op with
+    | clipline => simp [h1, h2]
+    | bool o => cases o <;> simp [h1, h2]
+
+/-- **Negation for the pre-fix glue (witness of DESIGN §1.1):** whatever the sweep does, the unit
+square `.XOr` the square at (5,5) has zero rings although (1/2,1/2) lies in exactly one operand. -/
+theorem C01_xor_defect_before_fix (core : ClipCore) :
+    apiUnfixed core unitSq farSq .xor = some (.poly []) ∧
+    opBool .xor (member unitSq ⟨1/2, 1/2⟩) (member farSq ⟨1/2, 1/2⟩) = true := by
+  constructor
+  · show some (Operand.poly (polyClipToPolygon (construct core (.bool .xor) unitC farC))) = _
+    rw [construct_of_trivial core _ _ _ trivial_witness]
+    simp [unitC, farC, polyClipToPolygon]
+  · decide +kernel
+
+/-! ## non-vacuity of the hypotheses -/
+
+example : Valid unitSq = true ∧ Valid farSq = true ∧ GeneralPosition unitSq farSq = true ∧
+    offBoundary unitSq ⟨1/2, 1/2⟩ = true ∧ offBoundary farSq ⟨1/2, 1/2⟩ = true := by decide +kernel
+
+example : Valid (.box ⟨0, 0⟩ ⟨2, 2⟩) = true ∧
+    Valid (.multi [[[⟨1, 1⟩, ⟨3, 1⟩, ⟨3, 3⟩, ⟨1, 3⟩]], [[⟨5, 5⟩, ⟨6, 5⟩, ⟨5, 6⟩]]]) = true ∧
+    GeneralPosition (.box ⟨0, 0⟩ ⟨2, 2⟩) (.multi [[[⟨1, 1⟩, ⟨3, 1⟩, ⟨3, 3⟩, ⟨1, 3⟩]], [[⟨5, 5⟩, ⟨6, 5⟩, ⟨5, 6⟩]]]) = true := by
+  decide +kernel
+
+/-- the fixed glue on the same witness: both squares come back (for every sweep core) -/
+example (core : ClipCore) : api core unitSq farSq .xor = some (.poly
+    [[⟨0, 0⟩, ⟨1, 0⟩, ⟨1, 1⟩, ⟨0, 1⟩, ⟨0, 0⟩, ⟨0, 0⟩], [⟨5, 5⟩, ⟨6, 5⟩, ⟨6, 6⟩, ⟨5, 6⟩, ⟨5, 5⟩, ⟨5, 5⟩]]) := by
+  have hc : clipperOp (.bool .xor) unitC farC = .bool .union := by
+    have ht := trivial_witness
+    simp only [clipperOp, trivialCase] at ht ⊢
+    simp [ht]
+  show some (Operand.poly (polyClipToPolygon (construct core (clipperOp (.bool .xor) unitC farC) unitC farC))) = _
+  rw [hc, construct_of_trivial core _ _ _ trivial_witness]
+  simp [unitC, farC, polyClipToPolygon, closeRing]
+
+end GeomV.C01
